@@ -217,9 +217,9 @@ theorem sanitize_char_injective (a b : Char) (ha : plainChar a = true) (hb : pla
   by_cases ia : identChar a = true <;> by_cases ib : identChar b = true
   · simpa [ia, ib] using h
   · simp only [ia, ib, if_true, Bool.false_eq_true, if_false] at h
-    simp [ia, h] at ha
+    simp [h] at ha
   · simp only [ia, ib, if_true, Bool.false_eq_true, if_false] at h
-    simp [ib, ← h] at hb
+    simp [← h] at hb
   · have ea : a = '/' := by simpa [ia] using ha
     have eb : b = '/' := by simpa [ib] using hb
     rw [ea, eb]
@@ -329,17 +329,17 @@ section Flag
 open KinModel.Internalize
 
 /-- with the parent-is-external flag every non-empty reference is treated as external -/
-theorem isExternalRef_parent (r : String) : isExternalRef r true = (r != "") := by
+theorem isExternalRef_parent (r : Str) : isExternalRef r true = !r.isEmpty := by
   simp [isExternalRef]
 
 /-- an empty $ref is never external, WHATEVER the flag: `derefPaths` computes
 `pathIsExternal := isExternalRef(ops.Ref, parentIsExternal)` and thereby drops the flag for every inline path item of
 an external callback (finding F-C16-5) -/
-theorem witness_flag_dropped : isExternalRef "" true = false := by
+theorem witness_flag_dropped : isExternalRef [] true = false := by
   simp [isExternalRef]
 
 /-- a reference that is not under `#/components/` is external also without the flag (e.g. `#/paths/~1x/…`, `x.json`) -/
-theorem isExternalRef_foreign (r : String) (p : Bool) (h1 : r ≠ "") (h2 : r.startsWith "#/components/" = false) :
+theorem isExternalRef_foreign (r : Str) (p : Bool) (h1 : r ≠ []) (h2 : hasCompPrefix r = false) :
     isExternalRef r p = true := by
   simp [isExternalRef, h1, h2]
 
